@@ -188,10 +188,33 @@ def stepMeaschk (secs : List (List String)) : String :=
     | _, _, _, _, _, _, _, _, _ => "bad-op"
   | _ => "bad-op"
 
+def optBool? (s : String) : Option (Option Bool) :=
+  if s = "-" then some none else if s = "1" then some (some true) else if s = "0" then some (some false) else none
+
+/-- `flags <created linear> <created flat> <override linear> <override flat>` (overrides `-`, `0`, `1`) -/
+def stepFlags : List String → String
+  | [cl, cf, ol, of_] =>
+    match optBool? cl, optBool? cf, optBool? ol, optBool? of_ with
+    | some (some cl), some (some cf), some ol, some of_ =>
+      let f := resolveFlags ⟨cl, cf⟩ ol of_
+      (if f.linear then "1" else "0") ++ " " ++ (if f.flat then "1" else "0")
+    | _, _, _, _ => "bad-op"
+  | _ => "bad-op"
+
+/-- `tol <user tolerance or -> <equality tolerance>` -/
+def stepTol : List String → String
+  | [u, e] =>
+    match (if u = "-" then some none else (QMat.parseRat? u).map some), QMat.parseRat? e with
+    | some u, some e => QMat.showRat (tolInForce u e)
+    | _, _ => "bad-op"
+  | _ => "bad-op"
+
 def step (line : String) : String :=
   match sections line with
   | ["consts"] :: [] => QMat.showRat IrisVerif.Steady.expNinth
   | ("path" :: args) :: [] => stepPath args
+  | ("flags" :: args) :: [] => stepFlags args
+  | ("tol" :: args) :: [] => stepTol args
   | ["wrt"] :: rest => stepWrt rest
   | ["steady", flat] :: rest => stepSteady flat rest
   | ["lin", flat] :: rest => stepLin flat rest
